@@ -21,6 +21,7 @@ import (
 //	instance.go (*instance).Run: the condition of the `if` whose body calls i.gun.Shoot, over
 //	            i.discardOverflow / waiter.IsSlowDown(ctx); whether the else branch reports
 //	            netsample.DiscardedShootSample()
+//	phout.go    (*phoutAggregator).Report is exactly a send of its argument on a.sink; Run drains a.sink when ctx is done
 //
 // Grammar: selectors of the receiver named above, true, false, !, &&, ||, ==, !=, parentheses.
 // Anything else is an error (the tie is reported broken).
@@ -176,6 +177,79 @@ func genPoolDeps(repo, out string) error {
 		return fmt.Errorf("pooldeps: no call of %s.gun.Shoot in instance.Run", recv3)
 	}
 
+	// 4. phout: Report is a plain (blocking) send of the sample on the aggregator's channel; Run, once its context is
+	// done, receives from that channel until it is empty
+	ph, err := parse("core/aggregator/netsample/phout.go")
+	if err != nil {
+		return err
+	}
+	rep, recv4, err := method(ph, "phoutAggregator", "Report")
+	if err != nil {
+		return err
+	}
+	plainSend := false
+	if len(rep.Body.List) == 1 && len(rep.Type.Params.List) == 1 && len(rep.Type.Params.List[0].Names) == 1 {
+		if snd, ok := rep.Body.List[0].(*ast.SendStmt); ok {
+			plainSend = exprString(snd.Chan) == recv4+".sink" && exprString(snd.Value) == rep.Type.Params.List[0].Names[0].Name
+		}
+	}
+	prun, recv5, err := method(ph, "phoutAggregator", "Run")
+	if err != nil {
+		return err
+	}
+	isRecvFromSink := func(st ast.Stmt) bool {
+		var e ast.Expr
+		switch x := st.(type) {
+		case *ast.AssignStmt:
+			if len(x.Rhs) == 1 {
+				e = x.Rhs[0]
+			}
+		case *ast.ExprStmt:
+			e = x.X
+		}
+		u, ok := e.(*ast.UnaryExpr)
+		return ok && u.Op == token.ARROW && exprString(u.X) == recv5+".sink"
+	}
+	drains := false
+	ast.Inspect(prun.Body, func(n ast.Node) bool {
+		cc, ok := n.(*ast.CommClause)
+		if !ok || cc.Comm == nil {
+			return true
+		}
+		es, ok := cc.Comm.(*ast.ExprStmt)
+		if !ok {
+			return true
+		}
+		u, ok := es.X.(*ast.UnaryExpr)
+		if !ok || u.Op != token.ARROW || exprString(u.X) != "ctx.Done()" {
+			return true
+		}
+		// inside: for { select { case r := <-a.sink: ... default: break } }
+		for _, st := range cc.Body {
+			fs, ok := st.(*ast.ForStmt)
+			if !ok || fs.Cond != nil || len(fs.Body.List) != 1 {
+				continue
+			}
+			sel, ok := fs.Body.List[0].(*ast.SelectStmt)
+			if !ok {
+				continue
+			}
+			hasRecv, hasDefault := false, false
+			for _, c := range sel.Body.List {
+				c2 := c.(*ast.CommClause)
+				if c2.Comm == nil {
+					hasDefault = true
+				} else if isRecvFromSink(c2.Comm) {
+					hasRecv = true
+				}
+			}
+			if hasRecv && hasDefault {
+				drains = true
+			}
+		}
+		return true
+	})
+
 	var b strings.Builder
 	b.WriteString("(* GENERATED by harness/cmd/translate pooldeps from core/engine/engine.go and core/engine/instance.go\n")
 	b.WriteString("   (the boolean expressions that carry discard_overflow from the pool to the fire/discard branch). Do not edit. *)\n")
@@ -184,6 +258,8 @@ func genPoolDeps(repo, out string) error {
 	fmt.Fprintf(&b, "(* buildNewInstanceSchedule: the instances get the schedule constructor itself when ... *)\nDefinition gen_own_schedule_cond (discardOverflow rpsPerInstance : bool) : bool := %s.\n\n", ownCond)
 	fmt.Fprintf(&b, "(* instance.Run: Shoot is called when ... *)\nDefinition gen_fire_cond (discardOverflow slow : bool) : bool := %s.\n\n", fireCond)
 	fmt.Fprintf(&b, "(* ... and otherwise netsample.DiscardedShootSample() is reported *)\nDefinition gen_else_reports_discarded : bool := %v.\n", elseReports)
+	fmt.Fprintf(&b, "\n(* phoutAggregator.Report is exactly `a.sink <- s` (a send that waits for room in the channel) *)\nDefinition gen_phout_report_plain_send : bool := %v.\n", plainSend)
+	fmt.Fprintf(&b, "\n(* phoutAggregator.Run, when its context is done, receives from the channel until it is empty *)\nDefinition gen_phout_run_drains : bool := %v.\n", drains)
 	return os.WriteFile(out, []byte(b.String()), 0o644)
 }
 
